@@ -11,12 +11,13 @@ RULE = ('triples (u,v,w) of linear units of one dimension (every table symbol wi
         'obtained by replacing factors with same-dimension alternatives, named units against base-unit expansions, '
         '#system symbols), magnitudes in {0,+-1,+-random,+-1e-200,+-1e200} as scalar or array; reciprocal pairs; bare '
         'number -> rad; refusal pairs of differing dimension with before/after fingerprint of the quantity; '
+        'histories of value()/to()/rebase() steps on ONE object over a pool of three units; '
         'non-trivial = u and v differ in text and factor, or the conversion must be refused; distinct by (u,v,w,class of x)')
 SHARDS = {'quick': 16, 'thorough': 16}
 MIN_NONTRIVIAL = {'quick': 6000, 'thorough': 150000}
 REQUIRED_CLASSES = ['atom-pair', 'compound-pair', 'named-vs-expansion', 'system-symbol', 'array', 'scalar', 'zero', 'negative',
-                    'extreme', 'reciprocal', 'bare-number-to-rad', 'refusal', 'target-quantity', 'roundtrip', 'via-intermediate']
-REQUIRED_MONITORS = ['value_compares', 'roundtrip_compares', 'path_compares', 'refusal_fingerprint_compares']
+                    'extreme', 'reciprocal', 'bare-number-to-rad', 'refusal', 'target-quantity', 'roundtrip', 'via-intermediate', 'same-object-history']
+REQUIRED_MONITORS = ['value_compares', 'roundtrip_compares', 'path_compares', 'refusal_fingerprint_compares', 'history_step_compares']
 ASSUMPTIONS = ['units_ref factors come from the published tables', 'rtol 1e-9',
                'temperature (Cel, degF) and logarithmic symbols are excluded here (C05)',
                'target units given as strings carry no numeric factor (to(Quantity) is used for that)',
@@ -153,6 +154,15 @@ def cases(rng, tier, shard, nshards, ctx):
             yield dict(t='recip', u=['a', a[0], a[1], e, 1], v=['a', b[0], b[1], -e, 1], x=x, xc=xc, arr=arr)
         elif r < 0.76:
             yield dict(t='bare', x=x, xc=xc, arr=arr)
+        elif r < 0.84 and rng.random() < 0.6:
+            # history on ONE object: value(v)/to(w)/value() steps drawn from a small pool of same-dimension units (repeats intended)
+            d = rng.choice(ctx['dimkeys'])
+            e = rng.choice([(1, 1), (1, 1), (2, 1), (-1, 1)])
+            pool = [['a', q[0], q[1], e[0], e[1]] for q in (rng.choice(ctx['bydim'][d]) for _ in range(3))]
+            steps = []
+            for _ in range(rng.randint(3, 8)):
+                steps.append([rng.choice(['value', 'value', 'to', 'to', 'plain', 'rebase']), rng.randrange(3)])
+            yield dict(t='hist', pool=pool, steps=steps, x=x if x != 0 else 1.5, xc=xc, arr=arr)
         elif r < 0.84:
             d = rng.choice(ctx['dimkeys'])
             a, b = rng.choice(ctx['bydim'][d]), rng.choice(ctx['bydim'][d])
@@ -227,6 +237,8 @@ def _run(case, ctx):
             devs.append(dev('bare-number-to-rad-units', dict(units=q.units())))
         return outcome(classes=classes, nontrivial=True, fp='bare %s %s' % (case['xc'], arr), dev=devs, monitors=mon,
                        sample=dict(case='Quantity(%r).to("rad")' % (xs,), observed=getv(q)))
+    if t == 'hist':
+        return run_hist(case, ctx, classes, xs)
     try:
         mu = T.meaning(case['u'])
         mv = T.meaning(case['v'])
@@ -327,6 +339,57 @@ def _run(case, ctx):
         return outcome(classes=classes, nontrivial=True, fp='refuse %s %s %s' % (ut, vt, case['op']), dev=devs, monitors=mon,
                        sample=dict(case='Quantity(%r,%r).%s(%r)' % (xs, ut, case['op'], vt), observed=repr(raised)[:100]))
     raise ValueError(t)
+
+
+def run_hist(case, ctx, classes, xs):
+    """value()/to()/rebase() steps on one object, the model tracks (numbers, current unit factor)"""
+    T, Q = ctx['T'], ctx['Q']
+    arr = case['arr']
+    classes.append('same-object-history')
+    pool = case['pool']
+    try:
+        F = [T.meaning(u)[0] for u in pool]
+    except (OverflowError, ZeroDivisionError):
+        return outcome(skip='overflow')
+    texts = [U.render(u) for u in pool]
+    if not U.finite_ok(*F):
+        return outcome(skip='overflow')
+    cur = 0
+    vals = list(xs)
+    q = Q(list(xs), texts[0]) if arr else Q(xs[0], texts[0])
+    devs, mon = [], {}
+    trace = []
+
+    def getv(v):
+        return [float(z) for z in (v.tolist() if hasattr(v, 'tolist') and arr else [v])]
+    for n, (op, i) in enumerate(case['steps']):
+        if op == 'value':
+            exp = [z * F[cur] / F[i] for z in vals]
+            if not U.finite_ok(*exp) or any(e == 0 for e in exp):
+                break
+            obs = getv(q.value(texts[i]))
+        elif op == 'to':
+            exp = [z * F[cur] / F[i] for z in vals]
+            if not U.finite_ok(*exp) or any(e == 0 for e in exp):
+                break
+            q.to(texts[i])
+            vals, cur = exp, i
+            obs = getv(q.magnitude.value)
+        elif op == 'rebase':
+            q.rebase()
+            exp = vals
+            obs = getv(q.magnitude.value)
+        else:
+            exp = vals
+            obs = getv(q.value())
+        trace.append([op, texts[i] if op in ('value', 'to') else None, obs[:1]])
+        mon['history_step_compares'] = mon.get('history_step_compares', 0) + 1
+        if len(obs) != len(exp) or not all(close(a, b, 1e-9) for a, b in zip(obs, exp)):
+            devs.append(dev('same-object-history-%s-step' % op, dict(start=texts[0], x=xs, steps=[(o, texts[j]) for o, j in case['steps'][:n + 1]],
+                                                                   observed=obs, expected=exp)))
+            break
+    return outcome(classes=classes, nontrivial=True, fp='hist %s %s %s' % (texts, case['steps'], case['xc']), dev=devs, monitors=mon,
+                   sample=dict(case='Quantity(%r,%r)' % (xs, texts[0]), steps=trace))
 
 
 def pinned(ctx):
